@@ -34,7 +34,7 @@ var mapLimits = []int{0, 1, 2, 3, 4, 5, 6, -1}
 var mapLeafNames = []string{"any", "ctPerm", "ctFile", "pnAny", "tagFoo", "typeA"}
 
 const (
-	hangCPU  = 1000 * time.Millisecond // CPU time; a normal query takes 2µs..5ms
+	hangCPU  = 250 * time.Millisecond // CPU time; a normal query takes 2µs..5ms
 	hangWall = 120 * time.Second       // no verdict (engine error) if the child got no CPU for that long
 )
 
@@ -163,7 +163,7 @@ func (c *child) ask(w *W, t *tree, limit int) (r qres, hung bool, site string, e
 	cpu0 := c.cpu()
 	t0 := time.Now()
 	fmt.Fprintf(c.stdin, "%s %d\n", t.key(), limit)
-	tick := time.NewTicker(50 * time.Millisecond)
+	tick := time.NewTicker(20 * time.Millisecond)
 	defer tick.Stop()
 	for {
 		select {
@@ -233,53 +233,64 @@ func spinSite(dump string) string {
 	return "?"
 }
 
-// located reports whether the model gives the permanode a location (latitude and longitude attributes).
-func located(m *mblob) bool {
-	if m.typ != "permanode" {
-		return false
-	}
-	a := m.attrsAt(time.Time{})
-	return len(a["latitude"]) > 0 && len(a["longitude"]) > 0
-}
-
 type mapCase struct {
 	t     *tree
 	limit int
 }
 
-// region names the part of the (matches, located matches, limit) space a case is in.
-func mapRegion(nMatch, nLoc, limit int) string {
-	switch {
-	case nLoc == 0:
-		return "no-located-match"
-	case limit < 0:
-		return "located>0,limit<0"
-	case limit == 0 || limit >= nMatch:
-		return "limit>=matches"
-	case limit <= nLoc:
-		return "limit<=located"
-	}
-	return "located<limit<matches"
+// mapRunner drives the sort=map cases of one world through a child process.
+type mapRunner struct {
+	res   *vk.Result
+	w     *W
+	ck    *checker
+	sc    *vk.Scenario
+	ch    *child
+	hangs int
 }
 
-// mapRunCase executes one (tree, sort=map, limit) case under the watchdog and applies the MapSort oracle.
-func mapRunCase(ck *checker, c mapCase, g genRes, region string) (f *finding) {
-	w, sc := ck.w, ck.sc
-	r, hung, site := w.queryGuarded(c.t, search.MapSort, c.limit)
-	ck.st.queries++
-	if hung {
-		sc.Outcome("hang|" + region + "|" + c.t.shape())
-		x := ck.finding(c.t, "C08|hang|"+site+"|sort=map|"+region,
-			fmt.Sprintf("Query did not return within %v (normal: microseconds); it spins in %s holding the index read lock; %d matches, region %s", hangTimeout, site, len(w.names(g.s)), region), "map", c.limit)
-		return &x
+func (m *mapRunner) close() {
+	if m.ch != nil {
+		m.ch.kill()
+		m.ch = nil
 	}
-	sc.Outcome(fmt.Sprintf("%s|%s|limit%d|%s|%s|n=%d", r.source, c.t.shape(), c.limit, region, r.status(), len(r.refs)))
+}
+
+// runCase executes one (tree, sort=map, limit) case in the child and applies the MapSort oracle.
+func (m *mapRunner) runCase(c mapCase, g genRes) (*finding, error) {
+	w, sc, ck := m.w, m.sc, m.ck
+	if m.ch == nil {
+		ch, err := startChild(w.mode)
+		if err != nil {
+			return nil, err
+		}
+		m.ch = ch
+	}
+	r, hung, site, err := m.ch.ask(w, c.t, c.limit)
+	if err != nil {
+		m.close()
+		return nil, err
+	}
+	ck.st.queries++
+	nMatch := len(w.names(g.s))
+	if hung {
+		m.ch = nil // it is dead
+		m.hangs++
+		lim := "limit>0"
+		if c.limit < 0 {
+			lim = "limit<0"
+		}
+		sc.Outcome(fmt.Sprintf("hang|%s|%s|%s|matches=%d", site, c.t.shape(), lim, nMatch))
+		x := ck.finding(c.t, "C08|hang|"+site+"|sort=map|"+lim,
+			fmt.Sprintf("Query used %v of CPU without returning (normal: microseconds); SIGQUIT shows it spinning in %s, holding the index read lock; %d blobs match", hangCPU, site, nMatch), "map", c.limit)
+		return &x, nil
+	}
+	sc.Outcome(fmt.Sprintf("%s|%s|limit%d|%s|n=%d/%d", r.source, c.t.shape(), c.limit, r.status(), len(r.refs), nMatch))
 	if r.panic != "" {
 		x := ck.finding(c.t, r.panicSig(), "query panicked: "+r.panic, "map", c.limit)
-		return &x
+		return &x, nil
 	}
 	if r.failed() {
-		return nil
+		return nil, nil
 	}
 	s, dup, alien := w.toSet(r.refs)
 	ck.st.comparisons++
@@ -287,7 +298,6 @@ func mapRunCase(ck *checker, c mapCase, g genRes, region string) (f *finding) {
 	if n == 0 {
 		n = 200
 	}
-	nMatch := len(w.names(g.s))
 	var sig, what string
 	switch {
 	case dup != nil:
@@ -295,32 +305,61 @@ func mapRunCase(ck *checker, c mapCase, g genRes, region string) (f *finding) {
 	case alien != nil:
 		sig, what = "C08|alien|"+r.source, fmt.Sprintf("returned %v which was never indexed", *alien)
 	case s&^g.s != 0:
-		sig, what = "C08|mapsort|"+region+"|extra", fmt.Sprintf("returned %v; the generic source gives %v", ck.refNames(r.refs), w.names(g.s))
+		sig, what = "C08|mapsort|"+ck.handlerKind()+"|extra", fmt.Sprintf("returned %v; the generic source gives %v", ck.refNames(r.refs), w.names(g.s))
 	case n > 0 && len(r.refs) > n:
 		sig, what = "C08|limit|"+ck.handlerKind()+"|exceeds-limit|map", fmt.Sprintf("%d results for limit %d: %v", len(r.refs), n, ck.refNames(r.refs))
 	case (n < 0 || nMatch <= n) && s != g.s:
 		// "If there are fewer matches than the requested limit, no results are pruned."
-		sig, what = "C08|mapsort|"+region+"|pruned-below-limit", fmt.Sprintf("returned %v although only %d blobs match: %v", ck.refNames(r.refs), nMatch, w.names(g.s))
+		sig, what = "C08|mapsort|"+ck.handlerKind()+"|pruned-below-limit", fmt.Sprintf("returned %v although only %d blobs match: %v", ck.refNames(r.refs), nMatch, w.names(g.s))
 	case n > 0 && nMatch > n && len(r.refs) != n:
-		sig, what = "C08|mapsort|"+region+"|too-few", fmt.Sprintf("returned %d results for limit %d although %d blobs match", len(r.refs), n, nMatch)
+		sig, what = "C08|mapsort|"+ck.handlerKind()+"|too-few", fmt.Sprintf("returned %d results for limit %d although %d blobs match", len(r.refs), n, nMatch)
 	}
 	if sig != "" {
 		x := ck.finding(c.t, sig, what, "map", c.limit)
-		return &x
+		return &x, nil
 	}
-	return nil
+	return nil, nil
 }
 
-func runMapSort(res *vk.Result) {
-	runtime.GOMAXPROCS(4) // bounds the CPU burnt by goroutines stuck in a non-returning query
+func (m *mapRunner) confirmAndReport(c mapCase, g genRes, f *finding) {
+	if f == nil {
+		return
+	}
+	m.sc.Outcome("finding|" + f.sig)
+	if sigSeen[f.sig] >= 3 {
+		return
+	}
+	for i := 0; i < 5; i++ {
+		f2, err := m.runCase(c, g)
+		if err != nil || f2 == nil || f2.sig != f.sig {
+			m.res.EngineError("finding %s on %s / %s limit %d did not reproduce (%v)", f.sig, m.w.name(), c.t.key(), c.limit, err)
+			return
+		}
+	}
+	m.res.Violate(m.sc, f.sig, f.what, f.replay)
+	sigSeen[f.sig]++
+}
+
+func mapTrees() []*tree {
 	byName := leafIndex()
 	var ls []*leaf
 	for _, n := range mapLeafNames {
 		ls = append(ls, byName[n])
 	}
 	lt := leafTrees(ls)
-	trees := append(append([]*tree{}, lt...), level2(lt)...)
-	hangSeen := map[string]bool{} // region -> hang confirmed
+	if !vk.Thorough() {
+		return lt
+	}
+	return append(append([]*tree{}, lt...), level2(lt)...)
+}
+
+func runMapSort(res *vk.Result) {
+	trees := mapTrees()
+	limits := []int{0, 1, 2, 3, 6, -1}
+	if vk.Thorough() {
+		limits = mapLimits
+	}
+	deadline := vk.Deadline()
 	for wi, mode := range modes {
 		if !vk.Mine(wi) {
 			continue
@@ -331,33 +370,18 @@ func runMapSort(res *vk.Result) {
 			return
 		}
 		sc := res.Scenario("mapsort/" + w.name())
-		sc.Bound = fmt.Sprintf("%d trees of depth<=2 over %v x sort=map x limits %v; two of six permanodes located; cases of a region in which a non-returning query has been confirmed (1+5 runs) are skipped afterwards (each leaves a spinning goroutine)", len(trees), mapLeafNames, mapLimits)
-		ck := newChecker(w, sc)
-		var late []mapCase // cases of regions that may not return: run last
-		skipped := 0
-		runCase := func(c mapCase, g genRes, region string) *finding { return mapRunCase(ck, c, g, region) }
-		confirmAndReport := func(c mapCase, g genRes, region string, f *finding) {
-			if f == nil || sigSeen[f.sig] >= 3 {
-				return
-			}
-			for i := 0; i < 5; i++ {
-				f2 := runCase(c, g, region)
-				if f2 == nil || f2.sig != f.sig {
-					res.EngineError("finding %s on %s / %s limit %d did not reproduce", f.sig, w.name(), c.t.key(), c.limit)
-					return
-				}
-			}
-			res.Violate(sc, f.sig, f.what, f.replay)
-			sigSeen[f.sig]++
-			if strings.HasPrefix(f.sig, "C08|hang|") {
-				hangSeen[region] = true
-			}
-		}
-		gens := map[string]genRes{}
+		sc.Bound = fmt.Sprintf("%d trees (depth<=%d over %v) x sort=map x limits %v; two of six permanodes have a location; every query runs in a child process under a CPU-time watchdog", len(trees), map[bool]int{false: 1, true: 2}[vk.Thorough()], mapLeafNames, limits)
+		m := &mapRunner{res: res, w: w, ck: newChecker(w, sc), sc: sc}
+		done := 0
 		for _, t := range trees {
+			if time.Now().After(deadline) {
+				sc.Exhaustive = false
+				sc.Note = fmt.Sprintf("deadline: %d of %d trees covered", done, len(trees))
+				break
+			}
 			var fs []finding
-			g := ck.generic(t, &fs)
-			for _, f := range fs { // (the generic-source query itself misbehaved; cannot hang: sort is "unsorted")
+			g := m.ck.generic(t, &fs)
+			for _, f := range fs { // the generic-source query itself misbehaved (cannot hang: its sort is "unsorted")
 				ok := true
 				for i := 0; i < 5 && ok; i++ {
 					var fs2 []finding
@@ -374,82 +398,52 @@ func runMapSort(res *vk.Result) {
 				}
 			}
 			sc.States++
-			gens[t.key()] = g
+			done++
 			if !g.ok {
 				continue
 			}
-			nLoc := 0
-			for i, b := range w.blobs {
-				if g.s&(1<<uint(i)) != 0 && located(b) {
-					nLoc++
-				}
-			}
-			for _, lim := range mapLimits {
+			for _, lim := range limits {
 				c := mapCase{t, lim}
-				region := mapRegion(len(w.names(g.s)), nLoc, lim)
-				if region == "located>0,limit<0" || region == "located<limit<matches" {
-					late = append(late, c)
+				f, err := m.runCase(c, g)
+				if err != nil {
+					res.EngineError("mapsort %s / %s limit %d: %v", w.name(), t.key(), lim, err)
 					continue
 				}
-				confirmAndReport(c, g, region, runCase(c, g, region))
+				m.confirmAndReport(c, g, f)
 			}
 		}
-		for _, c := range late {
-			g := gens[c.t.key()]
-			nLoc := 0
-			for i, b := range w.blobs {
-				if g.s&(1<<uint(i)) != 0 && located(b) {
-					nLoc++
-				}
-			}
-			region := mapRegion(len(w.names(g.s)), nLoc, c.limit)
-			if hangSeen[region] {
-				skipped++
-				sc.Outcome("skipped-after-confirmed-hang|" + region)
-				continue
-			}
-			confirmAndReport(c, g, region, runCase(c, g, region))
-		}
-		sc.Executions = ck.st.queries
-		sc.Transitions = ck.st.comparisons
-		if skipped > 0 {
-			sc.Note = fmt.Sprintf("%d cases skipped: they lie in a region (see outcomes) where a non-returning query had already been confirmed", skipped)
-		}
-		sc.Sample(map[string]any{"world": w.name(), "located": []string{"p2", "p5"}, "trees": len(trees), "limits": mapLimits, "late_cases": len(late), "skipped": skipped})
+		m.close()
+		sc.Executions = m.ck.st.queries
+		sc.Transitions = m.ck.st.comparisons
+		sc.Sample(map[string]any{"world": w.name(), "located": []string{"p2", "p5"}, "trees": len(trees), "limits": limits, "queries_that_never_returned": m.hangs})
 	}
 }
 
-func locatedIn(w *W, s set) int {
-	n := 0
-	for i, b := range w.blobs {
-		if s&(1<<uint(i)) != 0 && located(b) {
-			n++
-		}
-	}
-	return n
-}
-
-// replayMapSort re-executes one recorded mapsort case (guarded).
+// replayMapSort re-executes one recorded mapsort case (in a child, guarded).
 func replayMapSort(res *vk.Result, mode string, t *tree, limit int, want string) {
-	runtime.GOMAXPROCS(4)
 	w, err := buildWorld("located", mode)
 	if err != nil {
 		res.EngineError("replay: world located/%s: %v", mode, err)
 		return
 	}
 	sc := res.Scenario("mapsort/" + w.name())
-	ck := newChecker(w, sc)
+	m := &mapRunner{res: res, w: w, ck: newChecker(w, sc), sc: sc}
+	defer m.close()
 	var fs []finding
-	g := ck.generic(t, &fs)
+	g := m.ck.generic(t, &fs)
 	if !g.ok {
 		res.EngineError("replay: generic source failed: %s", g.status)
 		return
 	}
-	region := mapRegion(len(w.names(g.s)), locatedIn(w, g.s), limit)
 	n := 0
 	var last *finding
 	for i := 0; i < 5; i++ {
-		if f := mapRunCase(ck, mapCase{t, limit}, g, region); f != nil && (want == "" || f.sig == want) {
+		f, err := m.runCase(mapCase{t, limit}, g)
+		if err != nil {
+			res.EngineError("replay: %v", err)
+			return
+		}
+		if f != nil && (want == "" || f.sig == want) {
 			n++
 			last = f
 		}
@@ -457,5 +451,5 @@ func replayMapSort(res *vk.Result, mode string, t *tree, limit int, want string)
 	if n == 5 {
 		res.Violate(sc, last.sig, last.what, last.replay)
 	}
-	sc.Executions = ck.st.queries
+	sc.Executions = m.ck.st.queries
 }
